@@ -38,6 +38,15 @@ fn fixed_random_state() -> std::hash::RandomState {
     unsafe { core::mem::transmute::<[u64; 2], std::hash::RandomState>([0, 0]) }
 }
 
+// tracing::{trace,...}! reachable (Rtt::try_backoff_rtt) => kani-compiler ICE; NOTES-tracing.md stub set
+fn stub_tr_interest(_c: &'static tracing::callsite::DefaultCallsite) -> tracing::subscriber::Interest {
+    tracing::subscriber::Interest::never()
+}
+fn stub_tr_enabled(_m: &tracing::Metadata<'static>, _i: tracing::subscriber::Interest) -> bool {
+    false
+}
+fn stub_tr_dispatch<'a: 'a>(_m: &'static tracing::Metadata<'static>, _f: &'a tracing::field::ValueSet<'_>) {}
+
 /// Virtual clock with a concrete start (natively: the real clock).
 fn h_start_concrete() -> Instant {
     let t = if is_symbolic_run() {
@@ -119,6 +128,9 @@ fn quota_step(window_clause: bool) {
 #[kani::stub(std::sync::Mutex::lock, stub_lock)]
 #[kani::stub(std::hash::RandomState::new, fixed_random_state)]
 #[kani::stub(qevent::telemetry::macro_support::build_and_emit_event, no_emit)]
+#[kani::stub(tracing::callsite::DefaultCallsite::interest, stub_tr_interest)]
+#[kani::stub(tracing::__macro_support::__is_enabled, stub_tr_enabled)]
+#[kani::stub(tracing::Event::dispatch, stub_tr_dispatch)]
 fn c13_cc_quota_is_pacer_only() {
     quota_step(false);
 }
@@ -134,6 +146,9 @@ fn c13_cc_quota_is_pacer_only() {
 #[kani::stub(std::sync::Mutex::lock, stub_lock)]
 #[kani::stub(std::hash::RandomState::new, fixed_random_state)]
 #[kani::stub(qevent::telemetry::macro_support::build_and_emit_event, no_emit)]
+#[kani::stub(tracing::callsite::DefaultCallsite::interest, stub_tr_interest)]
+#[kani::stub(tracing::__macro_support::__is_enabled, stub_tr_enabled)]
+#[kani::stub(tracing::Event::dispatch, stub_tr_dispatch)]
 fn c13_pending_quota_respects_window() {
     quota_step(true);
 }
@@ -147,6 +162,9 @@ fn c13_pending_quota_respects_window() {
 #[kani::stub(std::sync::Mutex::lock, stub_lock)]
 #[kani::stub(std::hash::RandomState::new, fixed_random_state)]
 #[kani::stub(qevent::telemetry::macro_support::build_and_emit_event, no_emit)]
+#[kani::stub(tracing::callsite::DefaultCallsite::interest, stub_tr_interest)]
+#[kani::stub(tracing::__macro_support::__is_enabled, stub_tr_enabled)]
+#[kani::stub(tracing::Event::dispatch, stub_tr_dispatch)]
 fn c13_cc_pto_expiry() {
     let now = h_start_concrete();
     let is_server: bool = kani::any();
